@@ -107,6 +107,12 @@ EXTRA_CASES = [
          src="package a\n\nfunc f() {\n\tprepare()\n\tmid(1)\n\tcheck(w)\n\tmid(2)\n\tcheck(3 + 4)\n}\n\nfunc g() {\n\tprepare()\n\tcheck(5 * 6)\n}\n"),
     dict(name="extra/same-plus-side-twice", patch="@@\nvar a identifier\n@@\n-old1(a, ...)\n+renamed(a, ...)\n@@\nvar a identifier\n@@\n-old2(a, ...)\n+renamed(a, ...)\n",
          src="package a\n\nfunc f() {\n\told1(p, 1, 2)\n\told2(q, 3)\n\told2(r)\n}\n"),
+    # three elisions, one metavariable between the first two and again at the end, another one in the middle: how the
+    # two names sort must not matter
+    dict(name="extra/three-elisions-two-names", patch="@@\nvar a, b expression\n@@\n-f3(..., a, ..., b, ..., a)\n+g3(a, b)\n",
+         src="package a\n\nfunc f() {\n\tf3(1, 2, 3, 2)\n\tf3(1, 2, 3, 4)\n\tf3(5, 5)\n}\n"),
+    dict(name="extra/three-elisions-two-names-stmts", patch="@@\nvar f, g expression\n@@\n f := open()\n ...\n check(g)\n ...\n-f.Close()\n+f.Shutdown(g)\n",
+         src="package a\n\nfunc two() {\n\ta := open()\n\tb := open()\n\tcheck(e2)\n\tb.Close()\n}\n"),
     dict(name="extra/decrement-stmt", patch="@@\nvar i identifier\n@@\n i--\n-work(i)\n+work2(i)\n i++\n",
          src="package a\n\nfunc f(n int) {\n\tn--\n\twork(n)\n\tn++\n}\n"),
 ]
